@@ -7,7 +7,7 @@ CONSTANTS
   TrafficChunk = 64
   MaxActive = 256
   TimingOn = TRUE
-  Modes = {"inline", "deferred"}
+  Modes = {"inline", "deferred", "detach"}
   Conns = {"a", "b", "c"}
   Setup <- RSetup
   Alpha <- RAlpha
